@@ -110,6 +110,7 @@ fn main() {
     report::install_panic_hook();
     match property.as_str() {
         "C01" => mon::c01::run(&mut ctx),
+        "C06" => mon::c06::run(&mut ctx),
         "C07" => mon::c07::run(&mut ctx),
         "C04" => mon::c04::run(&mut ctx),
         "C05" => mon::c05::run(&mut ctx),
